@@ -156,6 +156,23 @@ Theorem C10_sequence_of_transfers_all_deliver : forall sa dest, 0 <= sa < 255 ->
 Proof. exact Net21Seq.sequence_delivers. Qed.
 Print Assumptions C10_sequence_of_transfers_all_deliver.
 
+From J1939P Require Net21Bam Net21BamSeq.
+
+(* T10.21: a HISTORY of broadcasts.  Any number of J1939-21 broadcasts — PDU1 groups to the global address, PDU2 groups with any
+   group extension, any payloads of 9..1785 bytes — sent one after the other, each when the network has come to rest, ALL reach
+   the listeners of the other node exactly once, in order; the completed broadcast restores the premises of its own theorem
+   (nothing pending, same packet interval, same listeners), the wire carries exactly the frames of every broadcast *)
+Theorem C10_sequence_of_broadcasts_all_deliver : forall sa iv, 0 <= sa < 255 -> 0 < iv < tp21_T1 ->
+  forall ms s, Forall Net21BamSeq.bmsg_ok ms -> Net21.qa s = [] -> Net21.qb s = [] -> 0 < Net21.clk s ->
+  Net21BamSeq.bpremA iv (Net21.na s) -> Net21BamSeq.bpremB (Net21.nb s) ->
+  exists s', Net21BamSeq.bseq_reach sa s ms s' /\
+    Net21.qa s' = [] /\ Net21.qb s' = [] /\ Net21BamSeq.bpremA iv (Net21.na s') /\ Net21BamSeq.bpremB (Net21.nb s') /\
+    Net21.evb s' = Net21.evb s ++ concat (map (fun m => deliveries (Net21.nb s) 7
+                       (Net21Bam.bam_pgn (Net21BamSeq.b_dp m) (Net21BamSeq.b_pf m) (Net21BamSeq.b_ps m)) sa addr_GLOBAL (Net21BamSeq.b_data m)) ms) /\
+    Net21.wab s' = Net21.wab s ++ concat (map (Net21BamSeq.bwire_of sa) ms).
+Proof. exact Net21BamSeq.broadcast_sequence_delivers. Qed.
+Print Assumptions C10_sequence_of_broadcasts_all_deliver.
+
 From J1939P Require Net22 Net22Proofs Net22Seq.
 
 (* T10.20 / T02.11: a HISTORY of FD transfers.  Any number of J1939-22 connection-mode transfers (any payloads of more than 60
